@@ -57,7 +57,7 @@ def discharge(hyps, goal, axioms=(), mode='default', both=False, timeout_ms=None
     saturated, notes = False, []
     s = None
     if quantified or mode == 'ematch':
-        s = _solver('ematch', timeout_ms)
+        s = _solver('ematch', min(timeout_ms, 8000))
         s.add(*axioms)
         s.add(*hyps)
         s.add(z3.Not(goal))
@@ -77,7 +77,7 @@ def discharge(hyps, goal, axioms=(), mode='default', both=False, timeout_ms=None
         saturated = not ('timeout' in reason or 'canceled' in reason or 'resource' in reason)
         notes.append(f'z3 e-matching: unknown ({reason})')
     if mode != 'ematch' or not quantified:
-        s = _solver('default', min(timeout_ms, 10000) if quantified else timeout_ms)
+        s = _solver('default', min(timeout_ms, 5000) if quantified else timeout_ms)
         s.add(*axioms)
         s.add(*hyps)
         s.add(z3.Not(goal))
@@ -98,7 +98,7 @@ def discharge(hyps, goal, axioms=(), mode='default', both=False, timeout_ms=None
             saturated = False
     secs = time.time() - t0
     if cvc5:
-        c, cs = run_cvc5(s.to_smt2(), 10 if saturated else CVC5_TIMEOUT_S)
+        c, cs = run_cvc5(s.to_smt2(), 5 if saturated else CVC5_TIMEOUT_S)
         secs += cs
         notes.append(f'cvc5: {c}')
         if c == 'unsat':
